@@ -1,6 +1,6 @@
 \* every weak hash collides (modulus 1): the strong comparison alone selects the block
 CONSTANTS Alphabet = {97, 98} MaxLen = 4 MaxDatas = {1, 2, 3} WeakM = 1
-          SwallowSendBlockError = FALSE Faults = TRUE
+          SwallowSendBlockError = FALSE Faults = TRUE OpReset = "whole"
 SPECIFICATION Spec
 INVARIANTS InvC19 InvC20 InvRollExact InvProgress InvBuffer InvSigShape InvErrOnlyOnFailure
 CHECK_DEADLOCK FALSE
